@@ -156,8 +156,8 @@ theorem verifyRrsigWithKeys_secure (env : Env) (gid : GroupId) (m : Msg) (sig : 
   · simp at h
   · obtain ⟨k, hk, hp, hs⟩ := scanKeys_secure _ _ _ _ _ h
     have := capKeys_subset _ _ k hk
-    simp only [List.mem_filter, beq_iff_eq] at this
-    exact ⟨k, this.1, this.2, hp, hs⟩
+    simp only [List.mem_filter, Bool.and_eq_true, beq_iff_eq] at this
+    exact ⟨k, this.1, this.2.1, hp, hs⟩
 
 /-! ### `verify_default_rrset` -/
 
@@ -421,6 +421,8 @@ theorem verifyMsg_ok (env : Env) (sub : Query → Res) (d : Nat) (q : Query) (qi
         · simp at hearly
       · simp at hearly
     · split at h
+      · injection h with h; exact h.symm
+      split at h
       · split at h
         · injection h with h; exact h.symm
         · simp at h
@@ -1080,6 +1082,12 @@ theorem allAuthInsecure_exists (env : Env) (sub : Query → Res) (d : Nat) (q : 
 
 /-! ### zone cuts are above the name -/
 
+theorem zoneOf_suffix {z n : DName} (h : zoneOf z n = true) : z <:+ n := by
+  unfold zoneOf at h
+  simp only [Bool.and_eq_true, decide_eq_true_eq, beq_iff_eq] at h
+  rw [← h.2]
+  exact List.drop_suffix _ _
+
 theorem baseName_suffix (n : DName) : DName.baseName n <:+ n := by
   cases n with
   | nil => exact List.suffix_refl _
@@ -1116,7 +1124,7 @@ theorem findDs_insecure_suffix (env : Env) (sub : Query → Res) (n : DName) (h 
 theorem selectOk_insecure_mem (env : Env) (sub : Query → Res) (gid : GroupId) (cands : List (Rec × Nat))
     (idx : Option Nat) (h : selectOk env sub gid cands = .done .insecure idx) :
     ∃ (s : Rec) (i : Nat) (m : Msg) (k : Rec), (s, i) ∈ cands ∧ sub ⟨s.signer, tDNSKEY⟩ = .ok m ∧ k ∈ m.an ∧
-      k.rtype = tDNSKEY ∧ k.proof = .insecure := by
+      k.rtype = tDNSKEY ∧ k.name = s.signer ∧ k.proof = .insecure := by
   induction cands with
   | nil => simp [selectOk] at h
   | cons c rest ih =>
@@ -1134,8 +1142,8 @@ theorem selectOk_insecure_mem (env : Env) (sub : Query → Res) (gid : GroupId) 
         · simp at hp
         · obtain ⟨k, hk, hkp⟩ := scanKeys_insecure _ _ _ _ _ hp (by simp)
           have := capKeys_subset _ _ k hk
-          simp only [List.mem_filter, beq_iff_eq] at this
-          exact ⟨s, i, m, k, List.mem_cons_self, hm, this.1, this.2, hkp⟩
+          simp only [List.mem_filter, Bool.and_eq_true, beq_iff_eq] at this
+          exact ⟨s, i, m, k, List.mem_cons_self, hm, this.1, this.2.1, this.2.2, hkp⟩
       · simp at h
     · obtain ⟨s', i', m', k', hc, h'⟩ := ih h
       exact ⟨s', i', m', k', List.mem_cons_of_mem _ hc, h'⟩
@@ -1147,8 +1155,8 @@ theorem verifyDefaultRrset_insecure_suffix (env : Env) (sub : Query → Res) (q 
     (sigs : List Rec) (idx : Option Nat)
     (h : verifyDefaultRrset env sub q gid sigs = .done .insecure idx) :
     (∃ zone, zone <:+ gid.name ∧ fetchDs sub zone = .err .insecure) ∨
-    (∃ (s : Rec) (m : Msg) (k : Rec), s ∈ sigs ∧ sub ⟨s.signer, tDNSKEY⟩ = .ok m ∧ k ∈ m.an ∧
-      k.rtype = tDNSKEY ∧ k.proof = .insecure) := by
+    (∃ (s : Rec) (m : Msg) (k : Rec), s ∈ sigs ∧ s.signer <:+ gid.name ∧ sub ⟨s.signer, tDNSKEY⟩ = .ok m ∧
+      k ∈ m.an ∧ k.rtype = tDNSKEY ∧ k.name = s.signer ∧ k.proof = .insecure) := by
   unfold verifyDefaultRrset at h
   split at h
   · split at h
@@ -1167,10 +1175,13 @@ theorem verifyDefaultRrset_insecure_suffix (env : Env) (sub : Query → Res) (q 
       · simp at h
     · simp at h
   · right
-    obtain ⟨s, i, m, k, hc, hm, hk, hkt, hkp⟩ := selectOk_insecure_mem _ _ _ _ _ h
+    obtain ⟨s, i, m, k, hc, hm, hk, hkt, hkn, hkp⟩ := selectOk_insecure_mem _ _ _ _ _ h
     unfold sigCands at hc
-    have hc' := (List.mem_filter.mp hc).1
+    obtain ⟨hc', hcond⟩ := List.mem_filter.mp hc
     have := List.mem_zipIdx_iff_getElem?.mp hc'
-    exact ⟨s, m, k, List.mem_of_getElem? (by simpa using this), hm, hk, hkt, hkp⟩
+    have hz : zoneOf s.signer gid.name = true := by
+      simp only [Bool.and_eq_true] at hcond
+      exact hcond.1
+    exact ⟨s, m, k, List.mem_of_getElem? (by simpa using this), zoneOf_suffix hz, hm, hk, hkt, hkn, hkp⟩
 
 end HickoryVerif.Chain
